@@ -22,6 +22,24 @@ def sh(cmd, **kw):
     return subprocess.run(cmd, shell=isinstance(cmd, str), stdout=subprocess.PIPE, stderr=subprocess.STDOUT, text=True, **kw)
 
 
+def run_checks(root, props):
+    hits = {}
+    m = json.load(open(os.path.join(VERIF, "MANIFEST.json")))
+    ids = props or [c["property_id"] for c in m["checks"]]
+
+    def one(p):
+        r = sh(["/venv/bin/python", os.path.join(VERIF, "sa", "run.py"), "check", p, "--tier", "quick", "--no-write", "--root", root], cwd=VERIF)
+        und = [l.strip() for l in r.stdout.splitlines() if l.strip().startswith("UNDISCHARGED")]
+        err = [l for l in r.stdout.splitlines() if l.startswith("ANALYSIS-ERROR")]
+        return p, r.returncode, und, err
+
+    with ThreadPoolExecutor(8) as ex:
+        for p, rc, und, err in ex.map(one, ids):
+            if rc != 0:
+                hits[p] = {"rc": rc, "reports": [u[:260] for u in und[:6]] + err[:2]}
+    return hits
+
+
 def main():
     args = sys.argv[1:]
     d = os.path.abspath(args[0])
@@ -54,34 +72,25 @@ def main():
             rb = sh(["/venv/bin/python", os.path.join(VERIF, "tools", "baseline_check.py"), wt, "-n", "10"])
             res["baseline_rc"] = rb.returncode
             res["baseline_tail"] = rb.stdout.strip().splitlines()[-3:]
+        hits = {}
+        if "--in-repo" not in args:
+            hits = run_checks(wt, props)
     finally:
         sh(f"git -C /repo worktree remove --force {wt}")
-    # checks against /repo with the patch applied
-    st = sh("git -C /repo status --porcelain --untracked-files=no").stdout.strip()
-    if st:
-        print("refusing: /repo has uncommitted changes:\n" + st)
-        return 2
-    ra = sh(f"git -C /repo apply {patch}")
-    hits = {}
-    try:
-        if ra.returncode:
-            res["repo_apply"] = ra.stdout[-300:]
-        else:
-            m = json.load(open(os.path.join(VERIF, "MANIFEST.json")))
-            ids = props or [c["property_id"] for c in m["checks"]]
-
-            def one(p):
-                r = sh(["/venv/bin/python", os.path.join(VERIF, "sa", "run.py"), "check", p, "--tier", "quick", "--no-write"], cwd=VERIF)
-                und = [l.strip() for l in r.stdout.splitlines() if l.strip().startswith("UNDISCHARGED")]
-                err = [l for l in r.stdout.splitlines() if l.startswith("ANALYSIS-ERROR")]
-                return p, r.returncode, und, err
-
-            with ThreadPoolExecutor(8) as ex:
-                for p, rc, und, err in ex.map(one, ids):
-                    if rc != 0:
-                        hits[p] = {"rc": rc, "reports": [u[:260] for u in und[:6]] + err[:2]}
-    finally:
-        sh("git -C /repo checkout -- .")
+    if "--in-repo" in args:
+        # checks against /repo itself with the patch applied, restored straight afterwards
+        st = sh("git -C /repo status --porcelain --untracked-files=no").stdout.strip()
+        if st:
+            print("refusing: /repo has uncommitted changes:\n" + st)
+            return 2
+        ra = sh(f"git -C /repo apply {patch}")
+        try:
+            if ra.returncode:
+                res["repo_apply"] = ra.stdout[-300:]
+            else:
+                hits = run_checks("/repo", props)
+        finally:
+            sh("git -C /repo checkout -- .")
     res["detected_by"] = hits
     ok = res.get("demo_clean_rc") == 0 and res.get("demo_patched_rc") not in (0, None) and res.get("apply_rc") == 0 and (nobase or res.get("baseline_rc") == 0)
     res["confirmed"] = ok
